@@ -135,6 +135,14 @@ func (tb *ATable) RegisterPropertyCallback(
 			set = &base.callbacks
 		}
 	default:
+		// Rendering wrappers embed a Table and hand themselves in as the
+		// owner; if that is (however deeply) a wrapper around this very
+		// table, then it is this table which is meant.
+		if wrapper, ok := owner.(Table); ok {
+			if c := wrapper.Column(0); c != nil && c.ofTable == tb {
+				return tb.RegisterPropertyCallback(tb, when, target, theNewCallback)
+			}
+		}
 		return fmt.Errorf("do not know how to register callbacks for type %T", owner)
 	}
 	if set == nil {
